@@ -1,6 +1,7 @@
 import PhyVerif.Model.C11
 import PhyVerif.Spec.C11
 import PhyVerif.Lemmas.C11
+import PhyVerif.Lemmas.C11b
 /-!
 # C11 — merging probes conserves every spike and renumbers ids disjointly
 Only property theorems + non-vacuity examples; proofs in `Lemmas/C11.lean`.
@@ -52,6 +53,35 @@ theorem ids_disjoint (ids : List (List Nat)) (k l : Nat) (hkl : k < l) (hl : l <
     ∀ a ∈ (shiftIds ids).getD k [], ∀ b ∈ (shiftIds ids).getD l [], a < b :=
   Lemmas.ids_disjoint ids k l hkl hl
 
+/-- Template ids use offsets that count each probe's templates (rows of templates.npy, at least
+max id + 1): the merged template id of a spike is its original id plus the probe's offset … -/
+theorem template_ids_shifted (ids : List (List Nat)) (counts : List Nat) (hlen : counts.length = ids.length)
+    (k i : Nat) (hi : i < (ids.getD k []).length) :
+    ((shiftBy ids (templateOffsets ids counts)).getD k []).getD i 0 =
+      (ids.getD k []).getD i 0 + (templateOffsets ids counts).getD k 0 :=
+  Lemmas.shiftBy_getD ids (templateOffsets ids counts)
+    (by unfold templateOffsets templateSizes
+        have h : ∀ (off : Nat) (l : List Nat), (sizeOffsetsFrom off l).length = l.length := by
+          intro off l; induction l generalizing off with
+          | nil => rfl
+          | cons a t ih => simp [sizeOffsetsFrom, ih]
+        rw [h]; simp [hlen]) k i hi
+
+/-- … ids of different probes never collide … -/
+theorem template_ids_disjoint (ids : List (List Nat)) (counts : List Nat) (hlen : counts.length = ids.length)
+    (k l : Nat) (hkl : k < l) (hl : l < ids.length) :
+    ∀ a ∈ (shiftBy ids (templateOffsets ids counts)).getD k [],
+      ∀ b ∈ (shiftBy ids (templateOffsets ids counts)).getD l [], a < b :=
+  Lemmas.template_ids_disjoint ids counts hlen k l hkl hl
+
+/-- … and when every template id is below its probe's template count the offsets are the summed
+template counts of the previous probes, i.e. the row offsets of the merged templates (C12). -/
+theorem templateOffsets_eq_counts (ids : List (List Nat)) (counts : List Nat) (hlen : counts.length = ids.length)
+    (hlt : ∀ k, ∀ a ∈ ids.getD k [], a < counts.getD k 0) (hpos : ∀ c ∈ counts, 0 < c)
+    (k : Nat) (hk : k < ids.length) :
+    (templateOffsets ids counts).getD k 0 = (counts.take k).sum :=
+  Lemmas.templateOffsets_eq_counts ids counts hlen hlt hpos k hk
+
 /-- The per-cluster probe table points back to the originating probe: entry c is k exactly for
 the merged ids of probe k's range; its length is the total number of merged cluster ids. -/
 theorem clusterProbes_ok (ids : List (List Nat)) (k : Nat) (hk : k < ids.length) (c : Nat)
@@ -71,6 +101,7 @@ theorem metadata_renumbered {β : Type} (md : List (Option (List (Nat × β)))) 
 example : spikeOrder [[3, 5, 5], [1, 5], [5, 9]] = [3, 0, 1, 2, 4, 5, 6] := by decide
 example : mergedOrigins [[3, 5, 5], [1, 5], [5, 9]] = [(1,0), (0,0), (0,1), (0,2), (1,1), (2,0), (2,1)] := by decide
 example : mergedIds [[3, 5, 5], [1, 5], [5, 9]] [[0, 2, 2], [4, 0], [1, 1]] = [7, 0, 2, 2, 3, 9, 9] := by decide
+example : templateOffsets [[0, 1, 1], [0, 0]] [3, 2] = [0, 3] := by decide   -- last template of probe 0 has no spike
 example : clusterProbes [[0, 2, 2], [4, 0], [1, 1]] = [0, 0, 0, 1, 1, 1, 1, 1, 2, 2] := by decide
 
 end PhyVerif.C11
